@@ -89,7 +89,7 @@ static void mode_mt(Case &c) {
 	// needs and reference through the single-threaded decoder (public API only)
 	RunOut D = run_dec(st, F.bytes.data(), F.bytes.size(), 1, P_NEED, nullptr, drv::Schedule(), false, F.plain_total);
 	if (D.env) { count("mt_skipped_environment"); return; }
-	if (D.R.ret != LZMA_STREAM_END && !D.R.capped) harness_bug("generated file rejected by the stream decoder: %s", drv::retname(D.R.ret));
+	if (D.R.ret != LZMA_STREAM_END && !D.R.capped) { if (D.events) violation("C09:restart-after-memlimit-fails", "stream decoder started with limit 1, limit raised to each reported need (%u times): a valid file then ends with %s", D.events, drv::retname(D.R.ret)); harness_bug("generated file rejected by the stream decoder: %s", drv::retname(D.R.ret)); }
 	const std::vector<uint64_t> ladder = D.needs;
 	const uint64_t maxneed = ladder.empty() ? D.end_usage : ladder.back();
 	const uint64_t maxtot = std::max<uint64_t>(F.max_tot_est, maxneed);
